@@ -402,8 +402,31 @@ def run_property(pid, modname, tier, seed, level, rule, assumptions, procs=16, o
         for m in merged.values():
             for b, msg in sorted(m.collected.items()):
                 print(f"COLLECTED [{m.name}] x{m.known_hits.get('UNLISTED ' + b, 0)} {b}\n    {msg[:700]}")
-    # violations
+    # replay tier: every saved minimal failing input of this property (found earlier on the pinned
+    # tree, on mutants or on seeded changes) is re-executed without Hypothesis; a fixed defect
+    # that returns is reported at once.
+    replayed, stale = 0, 0
     violations = []
+    rdir = os.path.join(VERIF_DIR, "replays", pid)
+    for fn in sorted(os.listdir(rdir)) if os.path.isdir(rdir) else []:
+        if not fn.endswith(".json"):
+            continue
+        try:
+            with open(os.path.join(rdir, fn)) as f:
+                rp = json.load(f)
+            found = replay_case(pid, mod, rp["facet"], rp["case"])
+        except BaseException as e:  # noqa: BLE001 - a replay written for an older case format
+            if isinstance(e, (KeyboardInterrupt, SystemExit)):
+                raise
+            stale += 1
+            continue
+        if found is None:
+            stale += 1
+            continue
+        replayed += 1
+        for b, msg in found:
+            if not known.is_open(b) and not (ONLY_BUCKET and b != ONLY_BUCKET) and not COLLECT:
+                violations.append(("saved-replay:" + fn, {"bucket": b, "message": msg, "case": rp["case"], "facet": rp["facet"], "path": os.path.join("replays", pid, fn)}))
     for m in merged.values():
         for v in m.violations:
             violations.append((m.name, v))
@@ -414,10 +437,13 @@ def run_property(pid, modname, tier, seed, level, rule, assumptions, procs=16, o
         if v["bucket"] in seen_buckets:
             continue
         seen_buckets.add(v["bucket"])
-        h = jhash([fname, v["bucket"], v["case"]])
-        path = os.path.join("replays", pid, f"{fname}-{h:016x}.json")
-        with open(os.path.join(VERIF_DIR, path), "w") as f:
-            json.dump({"property": pid, "facet": fname, "bucket": v["bucket"], "message": v["message"], "case": v["case"]}, f, indent=1)
+        if "path" in v:
+            path = v["path"]
+        else:
+            h = jhash([fname, v["bucket"], v["case"]])
+            path = os.path.join("replays", pid, f"{fname}-{h:016x}.json")
+            with open(os.path.join(VERIF_DIR, path), "w") as f:
+                json.dump({"property": pid, "facet": fname, "bucket": v["bucket"], "message": v["message"], "case": v["case"]}, f, indent=1)
         print(f"VIOLATION property={pid} replay={path}")
         print(f"  bucket: {v['bucket']}\n  {v['message']}")
         exit_code = 1
@@ -459,6 +485,7 @@ def run_property(pid, modname, tier, seed, level, rule, assumptions, procs=16, o
                 for m in merged.values()
             },
             "known_findings_reproduced": reproduced,
+            "saved_replays": {"re_executed": replayed, "stale_format": stale},
         },
         "assumptions": assumptions,
         "wall_s": round(time.time() - t0, 2),
